@@ -23,6 +23,11 @@ structure BkState where
   c11skip : List Nat := []      -- connections whose client acknowledged a packet id that was not in transit
   -- C09 oracle bookkeeping: (client id, packet id) of outbound QoS 2 messages for which the client has sent PUBREC
   pubrecd : List (Str × Nat) := []
+  -- C25 oracle bookkeeping: payload (hex) of each client PUBLISH -> (effective expiry interval, a retained-store
+  -- housekeeping ran strictly after its expiry, an in-flight housekeeping ran strictly after its expiry);
+  -- (client id, payload) pairs of copies that have been sent
+  msgs25 : List (String × Nat × Bool × Bool) := []
+  sent25 : List (Str × String) := []
 
 def kvGet (args : List String) (k : String) : Option String :=
   args.findSome? fun a =>
